@@ -686,9 +686,21 @@ impl<RW: QueueRW<T>, T> FutInnerRecv<RW, T> {
 
     #[inline(always)]
     pub fn recv(&self) -> Result<T, RecvError> {
-        let rval = self.reader.recv();
-        self.prod_wait.notify_all();
-        rval
+        // Every attempt goes through try_recv above so that producers are woken before
+        // this call starts to wait: a failed attempt on a shared stream can pin a slot for
+        // a moment and make a producer see Full and park although the queue is empty.
+        loop {
+            match self.try_recv() {
+                Ok(v) => return Ok(v),
+                Err(TryRecvError::Disconnected) => return Err(RecvError),
+                Err(TryRecvError::Empty) => {
+                    let count = self.reader.reader.load_count(Relaxed);
+                    let queue = &self.reader.queue;
+                    self.wait
+                        .wait(count, queue.wraps_at(count), &queue.writers);
+                }
+            }
+        }
     }
 
     /// Creates a new stream and returns a FutInnerRecv on that stream
